@@ -10,7 +10,7 @@ trap 'git -C /repo worktree remove --force "$wt" >/dev/null 2>&1' EXIT
 git -C "$wt" apply "$d/patch.diff" || { echo "SEEDED $d $prop patch-does-not-apply"; exit 1; }
 out=$(mktemp /tmp/seedrun.out.XXXX)
 t0=$(date +%s)
-( cd /verif && GZV_REPO="$wt" GZV_EVIDENCE_DIR=/tmp/seed_evidence GZV_REPLAY_DIR=/tmp/seed_replays timeout 1500 ./bin/gzv check "$prop" --tier "$tier" > "$out" 2>&1 ); rc=$?
+( cd /verif && GZV_REPO="$wt" GZV_EVIDENCE_DIR=/tmp/seed_evidence GZV_REPLAY_DIR=/tmp/seed_replays timeout ${SEED_TIMEOUT:-1500} ./bin/gzv check "$prop" --tier "$tier" > "$out" 2>&1 ); rc=$?
 t1=$(date +%s)
 nv=$(grep -c '^VIOLATION' "$out")
 first=$(grep -A1 -m1 '^VIOLATION' "$out" | tail -1 | cut -c1-220)
